@@ -231,3 +231,13 @@ package plumbing
 //gvc:  modifies o.sz
 //gvc:  ensures set: o.sz == s
 //gvc:end
+
+// FromObjectFormat: a hasher for SHA-256 exactly when that format is asked
+// for (everything else hashes as SHA-1 and names the unset format).
+//gvc:func FromObjectFormat
+//gvc:  props C01
+//gvc:  theory int
+//gvc:  opt coarse
+//gvc:  opt frame args
+//gvc:  ensures fmt: result != nil && (bytes_eq(f, "sha256") == bytes_eq(result.format, "sha256")) && (!bytes_eq(f, "sha256") ==> len(result.format) == 0)
+//gvc:end
